@@ -3,7 +3,7 @@
 A case is a *batch* of 6-10 catalogue scenarios (``vfw/scenarios.py``) plus two hash seeds and a permutation
 seed.  ``execute`` starts four fresh interpreters (``/venv/bin/python -m vfw.c03_worker``):
 
-* W0   PYTHONHASHSEED=0, the batch in order, then the whole batch a second time (W0': same process, after
+* W0   PYTHONHASHSEED=0, the batch in order, then the first scenario a second time (W0': same process, after
        all the other scenarios have run);
 * W1   PYTHONHASHSEED=hs[0], the batch in a permuted order after a preamble of two unrelated scenarios and
        10^4 live throw-away allocations;
@@ -17,8 +17,10 @@ Before every run the worker calls ``random.seed(s)`` / ``numpy.random.seed(s)`` 
 W2 and W0s.  Cause classes (deterministic function of which digests differ):
 
 * ``wall-clock``       W0 != W0s  (same hash seed, same order, same history: only wall time differs);
-* ``process-history``  W0 == W0s but W0 != W0' (second run in the same process);
-* ``hashseed``         W0 == W0s == W0' but W0 != W1 or W0 != W2.
+* ``process-history``  W0 == W0s but W0 != W0' (second run in the same process), or W0 != W1/W2 and replaying
+                       that worker's exact job (order, preamble, allocations) under PYTHONHASHSEED=0 still
+                       differs from W0 (the history alone explains it);
+* ``hashseed``         otherwise (W0 != W1 or W0 != W2, and the same job under hash seed 0 agrees with W0).
 """
 from __future__ import annotations
 
@@ -28,6 +30,7 @@ import os
 import random as _random
 import subprocess
 import sys
+import tempfile
 
 from hypothesis import strategies as st
 
@@ -82,7 +85,10 @@ def spawn(job, hashseed, sleep=False):
     import tempfile
     env = dict(os.environ)
     env["PYTHONHASHSEED"] = str(hashseed)
-    env["PYTHONDONTWRITEBYTECODE"] = "1"
+    # Workers are fresh interpreters; compiling ~45k lines of source in each of them costs more CPU than the
+    # scenarios themselves, so byte code is cached *outside* the tree under test (nothing is written to /repo).
+    env.pop("PYTHONDONTWRITEBYTECODE", None)
+    env["PYTHONPYCACHEPREFIX"] = os.path.join(tempfile.gettempdir(), "vfw-c03-pycache")
     env.pop("C03_SLEEP", None)
     if sleep:
         env["C03_SLEEP"] = "1"
@@ -166,7 +172,7 @@ def execute(case):
                 for _ in range(2)]
     runs = lambda idx, tag: [{"slot": i, "tag": tag, "case": batch[i]} for i in idx]  # noqa: E731
     jobs = {
-        "W0": ({"runs": runs(order, "W0") + runs(order, "W0'")}, 0, False),
+        "W0": ({"runs": runs(order, "W0") + runs(order[:1], "W0'")}, 0, False),
         "W1": ({"runs": runs(perm_order, "W1"), "preamble": preamble, "alloc": 10000}, hs[0], False),
         "W2": ({"runs": runs(order[::-1], "W2")}, hs[1], False),
         "W0s": ({"runs": runs(order, "W0s")}, 0, True),
@@ -213,6 +219,7 @@ def execute(case):
     nt = 0
     seen = set()
     for i in range(n):
+        tags = ["W0", "W0'", "W1", "W2", "W0s"] if i == 0 else ["W0", "W1", "W2", "W0s"]
         rows = {t: got.get((t, i)) for t in tags}
         if any(v is None for v in rows.values()):
             raise RuntimeError(f"C03 worker output incomplete for slot {i}: {[t for t, v in rows.items() if v is None]}")
@@ -230,7 +237,7 @@ def execute(case):
                 continue
             if d["W0"] != d["W0s"]:
                 cause, other = "wall-clock", "W0s"
-            elif d["W0"] != d["W0'"]:
+            elif d.get("W0'", d["W0"]) != d["W0"]:
                 cause, other = "process-history", "W0'"
             else:
                 # W1 / W2 differ from W0 in hash seed *and* in what ran before: replay the differing worker's exact
